@@ -283,6 +283,38 @@ class OneofSpace(Space):
                 bad("json", selected or members[0].name, f"group {g}: to_dict has members {in_json}, selected {selected!r}; dict={td!r}")
         if obj.p != model["p"]:
             out.append((base + ["plain-field", "int32"], f"p={obj.p} model {model['p']}"))
+        if last[0] in ("copy", "deepcopy", "pickle"):
+            out.extend(self.check_copy_independent(history, base))
+        return out
+
+    def observe_selection(self, o) -> str:
+        sel = {g: betterproto.which_one_of(o, g)[0] for g in self.groups}
+        return json.dumps([sel, bytes(o).hex(), sorted(o.to_dict())], sort_keys=True)
+
+    def check_copy_independent(self, history, base) -> List[Tuple[List[str], str]]:
+        """The oneof selection is per message: selecting a member on a copy (of any kind)
+        must not change what the original reports / encodes, and vice versa."""
+        out: List[Tuple[List[str], str]] = []
+        kind = history[-1][0]
+        for f in self.members:
+            for vi in (0, 1):
+                for mutate_copy in (True, False):
+                    orig, _ = self.replay(history[:-1])
+                    cp = {"copy": copy.copy, "deepcopy": copy.deepcopy,
+                          "pickle": lambda o: pickle.loads(pickle.dumps(o))}[kind](orig)
+                    target, other = (cp, orig) if mutate_copy else (orig, cp)
+                    before = self.observe_selection(other)
+                    try:
+                        setattr(target, f.name, self.pyval(f, VALUES[f.name][vi]))
+                        after = self.observe_selection(other)
+                    except Exception as e:
+                        out.append((base + ["copy-aliasing-raised", f.base], f"{type(e).__name__}: {e}"))
+                        continue
+                    if before != after:
+                        who = "copy" if mutate_copy else "original"
+                        out.append((base + ["copy-shares-selection", f.base],
+                                    f"assigning {f.name} on the {who} changed the other message: {before} -> {after}"))
+                        return out
         return out
 
 
